@@ -31,6 +31,8 @@ def check(c):
     n = c["n"]
     X = rs.randn(n, 2)
     y = X[:, 0] * 2 - X[:, 1] + 0.5 + rs.randn(n)
+    if (c["seed"] + n) % 2 == 1:
+        y = numpy.round(y * 3).astype(numpy.int64)      # targets stored as integers: scored like the same real numbers
     w = rs.randint(1, 4, n).astype(float) if c["has_w"] else None
     X0, y0, w0 = X.copy(), y.copy(), None if w is None else w.copy()
     m = QuantileLinearRegression(quantile=c["q"], fit_intercept=c["fit_intercept"], positive=c["positive"])
